@@ -23,7 +23,7 @@ func init() {
 			{Name: "roundtrip/generated", Count: core.FixedCount(60000, 1500000), Run: func(c *core.Ctx, idx int) { cdcnmon.RunC10Values(c) }, BlockIsViolation: true},
 			{Name: "roundtrip/leaf-corners", Count: core.FixedCount(cdcnmon.C10LeafCases(), cdcnmon.C10LeafCases()), Run: cdcnmon.RunC10Leaves, BlockIsViolation: true},
 			{Name: "roundtrip/narrow-widths", Count: core.FixedCount(5000, 100000), Run: func(c *core.Ctx, idx int) { cdcnmon.RunC10Narrow(c) }, BlockIsViolation: true},
-			{Name: "roundtrip/typed-collections", Count: core.FixedCount(12000, 300000), Run: func(c *core.Ctx, idx int) { cdcnmon.RunC10Typed(c) }, BlockIsViolation: true},
+			{Name: "roundtrip/typed-collections", Count: core.FixedCount(12000, 300000), CPULimit: 120, Run: func(c *core.Ctx, idx int) { cdcnmon.RunC10Typed(c) }, BlockIsViolation: true},
 			{Name: "totality/cyclic-and-deep", Count: core.FixedCount(cdcnmon.C10TotalityCases(), cdcnmon.C10TotalityCases()), Run: cdcnmon.RunC10Totality},
 			{Name: "totality/elision-model", Count: core.FixedCount(15000, 300000), Run: func(c *core.Ctx, idx int) { cdcnmon.RunC10Elision(c) }},
 			{Name: "purity/call-sequences", Count: core.FixedCount(6000, 150000), Run: func(c *core.Ctx, idx int) { cdcnmon.RunC10Purity(c) }},
